@@ -4,3 +4,5 @@ import PmtilesModel.Obligations.C02
 import PmtilesModel.Props.C03
 import PmtilesModel.Props.C04
 import PmtilesModel.Obligations.C04
+import PmtilesModel.Props.C17
+import PmtilesModel.Obligations.C17
